@@ -60,6 +60,23 @@ def explore(ctx, tier, search=False):
     cases = []
     n = 60 if (tier == "quick" and not search) else 1500
     todo = [("fixed/%d" % i, ops) for i, ops in enumerate(FIXED)] + [("h/%d" % i, None) for i in range(n)]
+    # slices of slices: a strided first range (ragged or not), then ranges of it that stop before, at and beyond its
+    # last record, on the sequence itself, on one of its columns and on a filtered derivation
+    for i in range(8 if (tier == "quick" and not search) else 120):
+        r = ctx.rng("chain/%d" % i)
+        first = ("slice", r.choice([None, 0, 1, 2]), r.choice([3, 4, 5, 6, 9, None]), r.choice([2, 2, 3]))
+        ops = [("derive", 0, first)]
+        via = r.choice(["seq", "col", "filt"])
+        src = 1
+        if via == "col":
+            ops.append(("derive", 1, ("child", r.choice(["i", "f", "t"]))))
+            src = 2
+        elif via == "filt":
+            ops.append(("derive", 1, ("filt", "i", ">", 0)))
+            src = 2
+        for _ in range(5):
+            ops.append(("derive", src, ("slice", r.choice([None, 0, 1]), r.choice([1, 2, 3, 4, None]), r.choice([None, 1, 1, 2]))))
+        todo.append(("chain/%d" % i, ops))
     for label, ops in todo:
         rng = ctx.rng(label + "/len")
         sim, hr, case = one_history(ctx, label, rng.randint(1, 8), ops=ops)
